@@ -28,11 +28,15 @@ def main():
     print(r.stdout)
     return 2
   missed = []
+  head = sh('git', '-C', '/repo', 'rev-parse', 'HEAD').stdout.strip()
   try:
     for sid in ids:
       d = os.path.join(ROOT, 'seeded', sid)
-      prop = json.load(open(os.path.join(d, 'meta.json')))['property']
+      meta = json.load(open(os.path.join(d, 'meta.json')))
+      prop = meta['property']
       sh('git', '-C', WT, 'checkout', '--', '.')
+      # a change that edits code a later repair rewrote is kept against the tree it was written for
+      sh('git', '-C', WT, 'checkout', '--detach', meta.get('base_commit', head))
       a = sh('git', '-C', WT, 'apply', os.path.join(d, 'patch.diff'))
       if a.returncode:
         print('%s: patch does not apply to HEAD: %s' % (sid, a.stdout.strip()[:200]), flush=True)
@@ -52,6 +56,7 @@ def main():
       for d in sorted(glob.glob(os.path.join(ROOT, 'benign', '*'))):
         meta = json.load(open(os.path.join(d, 'meta.json')))
         sh('git', '-C', WT, 'checkout', '--', '.')
+        sh('git', '-C', WT, 'checkout', '--detach', head)
         a = sh('git', '-C', WT, 'apply', os.path.join(d, 'patch.diff'))
         if a.returncode:
           print('%s: patch does not apply to HEAD' % os.path.basename(d), flush=True)
